@@ -180,6 +180,9 @@ func (ds *Describer) d1(v ssa.Value, depth int) *VD {
 	case *ssa.UnOp:
 		switch x.Op {
 		case token.MUL:
+			if us := Unspill(x); us != ssa.Value(x) {
+				return ds.d(us, depth+1)
+			}
 			return ds.d(x.X, depth+1) // load: transparent
 		case token.ARROW:
 			return &VD{Kind: "recv", Args: []*VD{ds.d(x.X, depth+1)}}
